@@ -38,7 +38,7 @@ def parse_info(line):
     kind = toks[n - 4]
     if kind not in ("cp", "mate") or d < 0 or nd < 0 or tm < 0 or abs(v) > 2000000000 or nd > 2000000000:
         return bad
-    return {"ok": True, "depth": d, "nodes": nd, "kind": kind, "val": v, "pv": pv, "raw": line, "q": 0}
+    return {"ok": True, "depth": d, "nodes": nd, "kind": kind, "val": v, "pv": pv, "raw": line, "q": 0, "time": tm}
 
 
 def classify_out(line):
